@@ -206,6 +206,10 @@ func checkC19Prog(c *C19ProgCase) *Violation {
 	srcA := pr.Layout(FixedGaps(c.GapsA)).Src
 	srcB := pr.Layout(FixedGaps(c.GapsB)).Src
 	o := Opts{Optimize: true, FontPath: "@repo", Auto: c.Auto, Switches: c.Switches}
+	if hash64(canon)%2 == 0 {
+		// "the compiled output without line markers": -lm off, but the input path known (as it is on the command line)
+		o.Path = "data/maps/Town/scripts.pory"
+	}
 	r0 := Compile(canon, o)
 	for i, s := range []string{srcA, srcB} {
 		r := Compile(s, o)
